@@ -388,10 +388,14 @@ func GenParams(t *rapid.T, p *Profile, kind string, nAcc int) *ParamsPatch {
 		pp.MinAccepts = uint64(uniRange(t, 1, n, "minAcc"))
 		pp.TimeLimit = pick(t, []uint64{5, 6, 10, 30, 200, 1, ^uint64(0)}, "limit")
 		pp.Denom = "nund"
+		if oneIn(t, 3, "entSteer") {
+			pp.Steer = uniRange(t, 1, 2, "entSteerKind")
+		}
 		if p.EntDenomChange && oneIn(t, 4, "entDenom") {
 			pp.Denom = pick(t, denomsValid, "entDenomV")
 		}
 		if invalid {
+			pp.Steer = 0
 			switch uniRange(t, 0, 6, "entBad") {
 			case 0:
 				pp.MinAccepts = 0
